@@ -422,6 +422,19 @@ class Program:
         return getattr(self.module, name)
 
 
+def exec_module(name: str, src: str):
+    """exec source in a fresh registered module whose source inspect.getsource can find"""
+    _counter[0] += 1
+    modname = f"{name}_{_counter[0]}"
+    filename = f"<vf:{modname}>"
+    mod = types.ModuleType(modname)
+    mod.__file__ = filename
+    sys.modules[modname] = mod
+    linecache.cache[filename] = (len(src), None, src.splitlines(True), filename)
+    exec(compile(src, filename, "exec"), mod.__dict__)
+    return mod
+
+
 def build(pid: str, spec: Sp, extra_src: str = "") -> Program:
     """exec the generated source in a fresh registered module (forward refs, getsource)."""
     src = source(spec, extra_src)
